@@ -121,7 +121,13 @@ fn run_inner(rng: &mut Rng, world: &World, k: u16, format: &str, dir: &str) -> C
         o.inconclusive("the network read back from the file admits different colours than the generated one");
         return o;
     }
-    let labels_pool = ["a_set", "B", "formula-0", "x1", "d", "p", "q_long_label_0123456789", "E"];
+    let labels_pool = ["a_set", "attractors.v2", "formula-0", "erk.on", "erk.off", "p", "q_long_label_0123456789", "x.bdd"];
+    let mut labels_pool = labels_pool.to_vec();
+    rng.shuffle(&mut labels_pool);
+    // the first label is also used as a wild-card in a formula, it must be a plain identifier
+    if let Some(pos) = labels_pool.iter().position(|l| *l == "p") {
+        labels_pool.swap(0, pos);
+    }
     let nlabels = rng.range(1, 8);
     let mut sets = HashMap::new();
     for l in labels_pool.iter().take(nlabels) {
